@@ -138,7 +138,10 @@ impl<'p> R<'p> {
                 let role = if n == "int" {
                     Role::Use(Bind::BuiltinInt)
                 } else {
-                    Role::Use(Bind::Type(self.prog.types.iter().position(|t| &t.name == n).expect("type")))
+                    match self.prog.types.iter().position(|t| &t.name == n) {
+                        Some(i) => Role::Use(Bind::Type(i)),
+                        None => Role::Use(Bind::Unbound),
+                    }
                 };
                 self.id(n, role)
             }
